@@ -1,6 +1,6 @@
 #!/bin/bash
 # Re-records the baseline of every property that has contracts. Run after any contract or engine change.
 cd /verif
-for p in ${@:-$(ls baseline | sed 's/.json//')}; do
+for p in ${@:-$(ls baseline | grep -v loops | sed 's/.json//')}; do
   ./bin/gowp check -prop $p -update-baseline 2>&1 | grep "^property\|failed obligation" | cut -c1-200
 done
